@@ -413,7 +413,7 @@ class FreeEnergyVolume(Volume):
         """
         from .path import optimal_path
 
-        if not F_graph:
+        if F_graph is None:
             F_graph = self.free_energy_graph(max_energy_threshold=1e7)
 
         path = optimal_path(F_graph, **kwargs)
@@ -427,7 +427,7 @@ class FreeEnergyVolume(Volume):
         """
         from .path import optimal_n_paths
 
-        if not F_graph:
+        if F_graph is None:
             F_graph = self.free_energy_graph(max_energy_threshold=1e7)
 
         paths = optimal_n_paths(F_graph, **kwargs)
